@@ -2138,12 +2138,36 @@ def _once_convert(stmts: List[ast.stmt], sink, at: ast.AST) -> Optional[List[ast
     return [o]
 
 
+_BASELINE_FUNCS: Optional[Set[str]] = None
+
+
+def _baseline_functions() -> Set[str]:
+    """module:function of the confirmed public surface (empty when the baseline file is missing: then nothing counts as new)."""
+    global _BASELINE_FUNCS
+    if _BASELINE_FUNCS is None:
+        import json
+        try:
+            with open(os.path.join(os.path.dirname(os.path.abspath(__file__)), "baseline.json")) as f:
+                _BASELINE_FUNCS = set(json.load(f).get("signatures", {}))
+        except (OSError, ValueError):
+            _BASELINE_FUNCS = None
+            return {"*"}
+    return _BASELINE_FUNCS
+
+
 def _collect_helpers(tree: ast.Module, modname: str = "") -> Dict[Tuple[Optional[str], str], _Helper]:
     out: Dict[Tuple[Optional[str], str], _Helper] = {}
     # every function of a module under a `_private` package is private to the package, whatever its name (anchored ones excepted)
     private_module = "._private" in modname or modname.endswith("_private")
+    exported: Set[str] = set()
     for st in tree.body:
-        if isinstance(st, ast.FunctionDef) and _eligible(st, private_class=private_module):
+        if isinstance(st, ast.Assign) and any(isinstance(t_, ast.Name) and t_.id == "__all__" for t_ in st.targets) and isinstance(st.value, (ast.List, ast.Tuple)):
+            exported |= {e.value for e in st.value.elts if isinstance(e, ast.Constant) and isinstance(e.value, str)}
+    for st in tree.body:
+        # a module-level function that is not part of the confirmed public surface (sfa/baseline.json) and not exported: a helper introduced by a
+        # change, whatever its name
+        new_function = isinstance(st, ast.FunctionDef) and modname and not st.name.startswith("_") and f"{modname}:{st.name}" not in _baseline_functions() and st.name not in exported
+        if isinstance(st, ast.FunctionDef) and _eligible(st, private_class=private_module or bool(new_function)):
             out[(None, st.name)] = _Helper(st, "func", None, "")
         if isinstance(st, ast.ClassDef):
             private_cls = st.name.startswith("_") and not st.name.startswith("__") and st.name not in anchors()
@@ -2329,6 +2353,21 @@ def _inline_helpers(mod: str, tree: ast.Module, all_helpers, trees, pkgs: Set[st
                     h = all_helpers[src_mod].get((None, a.name))
                     if h is not None and h.free <= top:
                         by_name[a.asname or a.name] = h
+                    elif h is not None and src_mod in trees:
+                        # names of the helper's own module that this module does not have: usable when each is a module-level literal there
+                        # (bound once), which is then written out in the inlined body
+                        lits: Dict[str, ast.expr] = {}
+                        for fr in h.free - top:
+                            defs_ = [x for x in trees[src_mod].body if (isinstance(x, ast.Assign) and len(x.targets) == 1 and isinstance(x.targets[0], ast.Name) and x.targets[0].id == fr)
+                                     or (isinstance(x, ast.AnnAssign) and isinstance(x.target, ast.Name) and x.target.id == fr and x.value is not None)]
+                            stores_ = 1 + sum(1 for n_ in ast.walk(trees[src_mod]) if isinstance(n_, ast.Global) and fr in n_.names)  # class / function bodies bind their own names
+                            if len(defs_) == 1 and stores_ == 1 and _pure_literal(defs_[0].value) and isinstance(defs_[0].value, (ast.Constant, ast.Tuple)):
+                                lits[fr] = defs_[0].value
+                        if lits and set(lits) == (h.free - top):
+                            h2 = _Helper(h.node, h.kind, h.cls, h.module, owner=h.owner)
+                            h2.qualify = lits
+                            h2.free = h.free & top
+                            by_name[a.asname or a.name] = h2
             # `from ._private import extensions` ... extensions.helper(..): the helper's own module-level names are written alias.name
             for a in st.names:
                 sub = f"{src_mod}.{a.name}" if src_mod else a.name
